@@ -26,7 +26,7 @@
 //! Observations, in event order: per `init_market_stream` call `ims <id> <initial> <mult> <max> <stream key>
 //! <display of the subscriptions>`, per subscribe `conn <id> <kind> c<connector type> <url> <n> <instrument>..`,
 //! per connect `req <url>`; then `calls <n>`, the initialised subscriptions `isub <id>,<instrument>,<kind>`
-//! sorted, and `res ok <streams per family> | network | connected | err` (+ `msg <Display of the DataError>`).
+//! in the byte order of these lines, and `res ok <streams per family> | network | connected | err` (+ `msg <Display of the DataError>`).
 use barter_data::{
     error::DataError,
     exchange::{
@@ -550,17 +550,16 @@ fn observe(rt: &tokio::runtime::Runtime, tables: &Tables, batches: Vec<Vec<DSub>
         }
     }
     lines.push(format!("calls {calls}"));
-    // the initialised subscriptions, sorted as `Subscription<ExchangeId, _, SubKind>` sorts (exchange,
-    // instrument, kind); unreadable entries last
-    isubs.sort_by(|a, b| {
-        let key = |x: &(String, Option<Inst>, String)| {
-            (x.0.parse::<usize>().unwrap_or(usize::MAX), x.1.is_none(), x.1.clone(), x.2.clone())
-        };
-        key(a).cmp(&key(b))
-    });
-    for (id, i, k) in isubs {
-        lines.push(format!("isub {id},{},{k}", i.as_ref().map(inst_tok).unwrap_or_else(|| "?".into())));
-    }
+    // the initialised subscriptions as a multiset: printed in the byte order of the printed lines — a canonical
+    // order of the HARNESS, independent of any `Ord` of the code under test (the specification says nothing about
+    // order; until the sub-check review the lines were sorted with the derived `Ord` of `MarketDataInstrument`,
+    // which made the oracle depend on how asset names compare)
+    let mut isub_lines: Vec<String> = isubs
+        .iter()
+        .map(|(id, i, k)| format!("isub {id},{},{k}", i.as_ref().map(inst_tok).unwrap_or_else(|| "?".into())))
+        .collect();
+    isub_lines.sort();
+    lines.extend(isub_lines);
     match res {
         Res::Ok(n) => lines.push(format!("res ok {} {} {} {}", n[0], n[1], n[2], n[3])),
         Res::Connected => lines.push("res connected".into()),
